@@ -110,3 +110,5 @@ Theorem C15_all_any_builtin : forall off ps, call_builtin off all_name ps = BOk 
   call_builtin off any_name ps = BOk (VBool (existsb (fun v => veq v (VBool true)) (smart_vec ps))).
 Proof. exact all_any_builtin. Qed.
 Print Assumptions C15_insert_builtin.
+Theorem C15_uppercase_idempotent : forall s, upper_str (upper_str s) = upper_str s.
+Proof. exact upper_str_idem. Qed.
